@@ -12,6 +12,13 @@ Kind 'sequence/same-net': the SAME net object is evolved several times (c['pre']
 AsynchronousRule object keeps _curr between the calls, so the later evolution continues the cyclic schedule.
 Kind 'mid/...': N in {31, 63, 127} with few steps.  Kind 'many-patterns/...': 127 / 128 / 129 equal patterns (weights of
 magnitude 128 do not fit a signed byte).
+Kind 'patterns/<form>/...': the same +-1 pattern sets handed over in different containers and dtypes (PFORMS below: 2D
+float64 / float32 / int8 / int64 arrays, np.where(bool, 1, -1), np.sign of real data (+1.0/-1.0), lists of int / float
+lists, lists of int / float arrays, tuples); the unchanged library trains the same int32 weights from every one of
+them (element-wise `W[i, j] += p[i]*p[j]` casts silently), so the model does not see the form.
+Kind 'states/<dtype>/...': initial rows of dtype int8 / int16 / int32 / int64 / float32 / float64 (a float row evolves
+to +-1.0, reported as ints; a non-integral value is reported as 9999), a few with N = 133..141 so that partial sums of
+the weighted input pass 127.
 Kind 'large/...': N in {129, 131, 201}, where the weighted input of a cell exceeds 127 in magnitude, with
 int8 and int64 state arrays (an input that wraps in a narrow dtype flips the sign of the update).
 """
@@ -27,7 +34,7 @@ NONTRIVIAL_RULE = ('non-trivial = the evolution returned an array with at least 
 EXHAUSTIVE = {'quick': False, 'thorough': False}
 NOTES = ['N = 3: all 8 starts x all 6 update orders enumerated in both tiers; N in {5,7,9,11,15} sampled; '
          'N in {31,63,127} a few cases with 2-8 steps; same net evolved 2-3 times (sequence/same-net); '
-         '127/128/129 equal patterns; '
+         '127/128/129 equal patterns; pattern sets in 11 containers / dtypes (patterns/<form>) and states in 6 dtypes; '
          'N in {129,131,201} (weighted inputs beyond 127) with int8 and int64 states, 3-6 steps; W compared in full',
          'model compared = evolve_plain + async_rule1 (Model/Async.v, scripted shuffle) + hopfield_rule1; '
          'the direct schedule model hop_evolve must agree with it as well']
@@ -45,6 +52,82 @@ def _bip(rng, n):
 def _case(kind, N, P, perm, s, T, dtype, pform, P1=None, pre=None):
     return {'kind': kind, 'N': N, 'P': P, 'perm': perm, 's': s, 'T': T, 'dtype': dtype, 'pform': pform, 'P1': P1,
             'pre': pre or []}
+
+
+# how a pattern set is handed to train(); 'list' and 'array' are the two forms of the earlier buckets
+PFORMS = ['float64', 'float32', 'int8', 'int64', 'bool', 'sign', 'list_of_lists', 'list_of_float_lists',
+          'list_of_arrays', 'list_of_float_arrays', 'tuple']
+SDTYPES = ['int8', 'int16', 'int32', 'int64', 'float32', 'float64']
+
+
+def make_patterns(np, ps, pform):
+    """ps: list of lists of +-1 ints -> the object passed to HopfieldNet.train"""
+    if pform in ('float64', 'float32', 'int8', 'int64'):
+        return np.array(ps, dtype=getattr(np, pform))
+    if pform == 'bool':                      # binary data mapped to bipolar
+        return np.where(np.array(ps) > 0, 1, -1)
+    if pform == 'sign':                      # thresholded real data: +1.0 / -1.0
+        return np.sign(np.array(ps, dtype=np.float64) * 0.37 + 1e-9)
+    if pform == 'list_of_float_lists':
+        return [[float(x) for x in p] for p in ps]
+    if pform in ('array', 'list_of_arrays'):
+        return [np.array(p) for p in ps]
+    if pform == 'list_of_float_arrays':
+        return [np.array(p, dtype=np.float64) for p in ps]
+    if pform == 'tuple':
+        return tuple(tuple(p) for p in ps)
+    return [list(p) for p in ps]             # 'list', 'list_of_lists'
+
+
+def _forms(rng, tier):
+    """containers / dtypes of the patterns, dtypes of the state: weights AND evolution / energy"""
+    reps = 1 if tier == 'quick' else 4
+    for rep in range(reps):
+        for pform in PFORMS:
+            for i in range(12):
+                N = SIZES[i % len(SIZES)]
+                P = [_bip(rng, N) for _ in range(1 + (i // 3) % 4)]
+                perm = list(range(N))
+                rng.shuffle(perm)
+                if i % 3 == 0:
+                    s, what = list(P[0]) if i % 2 else [-x for x in P[0]], 'stored'
+                elif i % 3 == 1:
+                    s = list(rng.choice(P))
+                    for k in rng.sample(range(N), rng.randint(1, max(1, N // 3))):
+                        s[k] = -s[k]
+                    what = 'recall'
+                else:
+                    s, what = _bip(rng, N), 'random-start'
+                P1 = [_bip(rng, N)] if i == 11 else None     # also as a re-training
+                yield _case('patterns/%s/%s' % (pform, what), N, P, perm, s, rng.randint(1, 2 * N + 1),
+                            rng.choice(SDTYPES), pform, P1=P1)
+        for dt in SDTYPES:
+            for i in range(8):
+                N = rng.choice(SIZES)
+                P = [_bip(rng, N) for _ in range(rng.randint(1, 4))]
+                perm = list(range(N))
+                rng.shuffle(perm)
+                s = list(rng.choice(P))
+                for k in rng.sample(range(N), rng.randint(0, max(1, N // 2))):
+                    s[k] = -s[k]
+                yield _case('states/%s/small' % dt, N, P, perm, s, rng.randint(1, 3 * N),
+                            dt, rng.choice(PFORMS), pre=([[_bip(rng, N), rng.randint(1, N)]] if i % 4 == 3 else None))
+
+
+def _forms_big(rng, tier):
+    """N = 133 .. 141 next to one stored pattern: the weighted input and its partial sums pass 127"""
+    plan = [(133, 'int8', 'float64'), (137, 'int16', 'int8'), (139, 'float64', 'sign'), (141, 'int64', 'list_of_float_lists')]
+    if tier != 'quick':
+        plan = plan + [(135, 'float32', 'float32'), (129, 'int8', 'list_of_float_arrays')]
+    for N, dt, pform in plan:
+        p = _bip(rng, N)
+        flips = rng.sample(range(N), 3)
+        s = list(p)
+        for k in flips:
+            s[k] = -s[k]
+        rest = [k for k in range(N) if k not in flips]
+        rng.shuffle(rest)
+        yield _case('states/%s/N~140' % dt, N, [p], flips + rest, s, rng.randint(3, 5), dt, pform)
 
 
 MID = [31, 63, 127]
@@ -109,8 +192,8 @@ def _large(rng, tier):
 
 
 def generate(rng, tier):
-    small = list(_generate_small(rng, tier))
-    large = list(_large(rng, tier)) + list(_mid(rng, tier))
+    small = list(_generate_small(rng, tier)) + list(_forms(rng, tier))
+    large = list(_large(rng, tier)) + list(_mid(rng, tier)) + list(_forms_big(rng, tier))
     # spread the expensive cases evenly over the list (the driver shards it in order, 400 per coqc process)
     if large:
         step = max(1, len(small) // len(large))
@@ -249,7 +332,10 @@ def run_impl(c):
         return obs
     net = state['net']
     def form(ps):
-        return [np.array(p) for p in ps] if c['pform'] == 'array' else [list(p) for p in ps]
+        return make_patterns(np, ps, c['pform'])
+
+    def ints(a):     # float rows hold +-1.0; anything non-integral must not be hidden by int()
+        return [[int(x) if float(x) == int(x) else 9999 for x in row] for row in np.asarray(a).tolist()]
 
     P = form(c['P'])
 
@@ -257,7 +343,7 @@ def run_impl(c):
         if c.get('P1') is not None:      # an earlier training of the same instance
             net.train(form(c['P1']))
         net.train(P)
-        return [[int(x) for x in row] for row in np.asarray(net.W).tolist()]
+        return ints(net.W)
 
     obs['W'] = list(call_impl(train))
     if obs['W'][0] != 'ok':
@@ -266,7 +352,7 @@ def run_impl(c):
     def evolve(s0, T):
         initial = np.array([s0], dtype=getattr(np, c['dtype']))
         ca = cpl.evolve(initial, timesteps=T, apply_rule=net.apply_rule, r=net.r)
-        return [[int(x) for x in row] for row in np.asarray(ca).tolist()]
+        return ints(ca)
 
     for s0, T0 in c.get('pre') or []:      # earlier evolutions on the same net object
         o = list(call_impl(evolve, s0, T0))
@@ -361,7 +447,7 @@ def shrink(c):
         P1 = None if c.get('P1') is None else [p[:N] for p in c['P1']]
         yield dict(c, N=N, P=[p[:N] for p in c['P']], perm=perm, s=c['s'][:N], P1=P1,
                    pre=[[st[0][:N], st[1]] for st in (c.get('pre') or [])])
-    if c['pform'] == 'array':
+    if c['pform'] not in ('list', 'list_of_lists'):
         yield dict(c, pform='list')
     if c['dtype'] not in ('int64', 'int8'):
         yield dict(c, dtype='int64')
